@@ -17,7 +17,7 @@ ANCHORS = ["src/pylife/strength/woehler_fkm_nonlinear.py", "src/pylife/strength/
            "src/pylife/strength/fkm_nonlinear/constants.py"]
 SHARDS = {"quick": 4, "thorough": 16}
 WATCHDOG = {"quick": 900, "thorough": 3000}
-REQUIRED_CLASSES = {t: ["curve:P_RAM", "curve:P_RAJ", "pram:S_m<0", "pram:S_m>=0", "pram:negative_product",
+REQUIRED_CLASSES = {t: ["curve:P_RAM", "curve:P_RAJ", "curve:P_RAJ_endurance_value_updated", "pram:S_m<0", "pram:S_m>=0", "pram:negative_product",
                         "table:half_hystereses", "table:early_failure", "table:no_pass1_rows", "table:below_endurance_rows",
                         "table:zero_damage_pass2", "beta:P_A<=0.5", "gamma:normal", "gamma:lognormal", "gamma:blanket",
                         "gamma:P_L=2.5", "gamma:P_L=50"]
@@ -132,6 +132,19 @@ def _curves(case, ctx, rng):
     Nsj = 10 ** rng.uniform(0, math.log10(NDj) - 1e-6, 8)
     ctx.check("curve:N(P(N))==N", _close(np.asarray(wj.calc_N(np.asarray(wj.calc_P_RAJ(Nsj), dtype=float)), dtype=float), Nsj, 1e-8),
               observed=Nsj, detail="P_RAJ")
+    # the P_RAJ endurance value moves during the damage calculation (update_P_RAJ_D): "infinite at and below the endurance value,
+    # finite and on the power law above it" must then hold for the current value, and again after it is moved back
+    ctx.tag("curve:P_RAJ_endurance_value_updated")
+    ok, bad = True, None
+    for fac in (0.6, 1.7, 1.0):
+        cur = PD * fac
+        wj.update_P_RAJ_D(cur)
+        above = cur * np.array([1.0 + 1e-9, 1.3, 4.0])
+        below = cur * np.array([1.0, 1.0 - 1e-9, 0.5])
+        Na, Nb = np.asarray(wj.calc_N(above), dtype=float), np.asarray(wj.calc_N(below), dtype=float)
+        if not (np.all(np.isinf(Nb)) and _close(Na, (above / PZ) ** (1 / d)) and _close(float(wj.fatigue_strength_limit_final), cur, 1e-15)):
+            ok, bad = False, {"endurance_value": cur, "initial": PD, "N_above": Na, "N_at_and_below": Nb}
+    ctx.check("curve:infinite_at_and_below_endurance", ok, observed=bad, detail="P_RAJ after update_P_RAJ_D")
     ctx.check("curve:continuous_at_endurance_knee", _close(float(np.asarray(wj.calc_P_RAJ(NDj * (1 - 1e-9)))), PD, 1e-7)
               and _close(float(np.asarray(wj.calc_P_RAJ(NDj * 2))), PD, 1e-15) and _close(float(wj.fatigue_life_limit), NDj, 1e-12),
               observed=float(np.asarray(wj.calc_P_RAJ(NDj * (1 - 1e-9)))), expected=PD, detail="P_RAJ")
